@@ -103,15 +103,23 @@ def run(ctx):
     nnorm = 0
     for gi, g in enumerate(geoms[: (120 if q else 1000)]):
         p = rng.choice((1.0, 0.5, 3.25, 100.0, 1e-3))
-        kind = rng.choice(('float', 'int', 'uint8', 'bool', 'complex'))
+        kind = rng.choice(('float', 'int', 'uint8', 'bool', 'complex', 'float32-tiny', 'complex64-huge', 'float16-large'))
         raw = {'float': g['amp'].astype(float), 'int': g['amp'].astype(int), 'uint8': (g['amp'] * 9).astype(np.uint8),
                'bool': g['amp'] > 0,
-               'complex': g['amp'] * np.exp(2j * np.pi * g['opd'] / g['N'])}[kind]
+               'complex': g['amp'] * np.exp(2j * np.pi * g['opd'] / g['N']),
+               # single / half precision amplitudes whose SQUARES leave the range of their own type (1e-60, 1e50, > 65504)
+               'float32-tiny': (g['amp'] * 1e-30).astype(np.float32),
+               'complex64-huge': (g['amp'] * np.exp(2j * np.pi * g['opd'] / g['N']) * 1e25).astype(np.complex64),
+               'float16-large': (g['amp'] * 300.0).astype(np.float16)}[kind]
         nnorm += 1
         try:
             a = lentil.normalize_power(raw, p)
-            if not abs((np.abs(a) ** 2).sum() - p) <= 1e-12 * p:
-                ctx.violation({'kind': 'normalize_power', 'dtype': kind}, {'target': p, 'power': float((np.abs(a) ** 2).sum())}, case=None)
+            # (the result comes back in the type of the input: a half / single precision amplitude carries its power to that precision)
+            adt = np.asarray(a).dtype
+            tolp = 1e-12 if adt.kind not in 'fc' or adt.itemsize >= (16 if adt.kind == 'c' else 8) else 8 * float(np.finfo(adt).eps)
+            pw = float((np.abs(np.asarray(a).astype(complex)) ** 2).sum())
+            if not (np.all(np.isfinite(np.asarray(a).astype(complex))) and abs(pw - p) <= tolp * p):
+                ctx.violation({'kind': 'normalize_power', 'dtype': kind}, {'target': p, 'power': pw}, case=None)
                 continue
             # the aperture may be cut into segments, also into segments whose masks share a column of samples (as closely packed
             # antialiased segment masks do): the power that reaches the image does not depend on how the aperture is described
@@ -136,7 +144,7 @@ def run(ctx):
                     scr = np.full((3 * g['Kr'] + 2, 2 * g['Kc'] + 5), 7.0 - 2.0j)
                     o = lentil.propagate_fft(w, pixelscale=(float(g['du'][0]), float(g['du'][1])), shape=full, oversample=g['os'], scratch=scr)
                 t = float(o.intensity.sum())
-                if abs(t - p) > 1e-9 * p:
+                if abs(t - p) > max(1e-9, tolp) * p:
                     ctx.violation({'kind': 'normalized-amplitude-images-to-p', 'fn': fn, 'os': g['os'], 'segments_share_samples': segm is not None},
                                   {'target': p, 'total': t, 'K': [g['Kr'], g['Kc']]}, case=None)
         except Exception as ex:
